@@ -60,6 +60,10 @@ fn worker(args: &[String]) {
       let supported = if discover { std::sync::Arc::new(Default::default()) } else { w1::load_supported(&format!("{}/baselines/w1_supported.txt", VERIF)) };
       supervisor::worker_loop(|k| w1::worker_run(seed, k, profile, supported.clone(), &known, discover));
     }
+    "W2" => {
+      let corpus = std::sync::Arc::new(corpus::load());
+      supervisor::worker_loop(|k| w2::worker_run(seed, k, &corpus));
+    }
     "W3" => {
       let thorough = flag(args, "--thorough");
       let corpus = std::sync::Arc::new(corpus::load());
@@ -113,6 +117,29 @@ fn check_cmd(args: &[String]) -> i32 {
         expected_reach: vec![],
         exhaustive: false,
         extra: json!({}),
+      }
+    }
+    "C19" => {
+      let corpus_len = corpus::load().len() as u64;
+      CheckSpec {
+        property: property.clone(), world: "W2".into(), tier: tier.clone(), seed, level: "exploration".into(),
+        rule: format!("W2 replica world: 2-3 real Interpreters per run, each on its own thread with its own PRNG-chosen hash seed (so HashMap/IndexMap iteration orders differ between replicas), fed the same program and then step requests; the PRNG decides which replica executes its next command (commands of different replicas interleave inside one host process, exactly one runs at a time), how each replica's total of 0-12 steps is decomposed (one request for n, n single steps, a random composition, requests for zero steps) and the per-replica profile/trace knobs. Programs: the {} snippets harvested at run time from /repo/tests/*.rs plus the sampler (the first runs walk the corpus in order), and programs generated by W1's generator with and without mutation statements. Oracle after every command: replicas that executed the same total number of steps hold equal symbol tables and returned equal results; interpret() outcomes agree; a program whose text certainly contains no assignment/op-assignment is left exactly as interpret left it. A run is non-trivial if interpret succeeded and at least one step was executed; distinct = digest over program, schedule and every replica's outcomes/store digests.", corpus_len),
+        worker_args: vec!["worker".into(), "--world".into(), "W2".into(), "--seed".into(), seed.to_string()],
+        runs: if thorough { 400_000 } else { corpus_len + 12_000 },
+        budget: Duration::from_secs(if thorough { 600 } else { 55 }),
+        chunk: 16,
+        evidence: base.join("evidence/C19.json"),
+        replays: base.join("replays/C19"),
+        known: base.join("known_findings.jsonl"),
+        components_real: vec!["mech-syntax parser".into(), "mech-interpreter (interpret, Interpreter::step incl. profile and trace paths)".into(), "every stdlib step struct the corpus plans (MechFunctionImpl::solve/out)".into()],
+        components_stub: vec!["none of Mech is stubbed; simulated: hash seeds per replica, command interleaving, step decomposition, profile/trace knobs".into()],
+        assumptions: vec![
+          "a panic or error inside step() ends that replica's part of the run (C19 does not promise its absence)".into(),
+          "'contains no assignment' is decided conservatively on the text: any '=' outside := == != <= >= => ..= counts as an assignment".into(),
+        ],
+        expected_reach: vec!["reach:step-ok".into(), "reach:programs-without-assignment".into(), "reach:programs-with-assignment".into(), "reach:runs-where-steps-changed-state".into(), "fault:step-split".into(), "fault:profile-knob".into(), "fault:trace-knob".into()],
+        exhaustive: false,
+        extra: json!({"corpus_programs": corpus_len}),
       }
     }
     "C07" => {
@@ -182,6 +209,13 @@ fn replay_cmd(args: &[String]) -> i32 {
         None => { println!("not reproduced"); 0 }
       }
     }
+    Some("W2") => {
+      match w2::replay(&j) {
+        Some(sig) if want.is_empty() || sig == want => { println!("REPRODUCED {}", sig); 1 }
+        Some(sig) => { println!("different violation: {} (wanted {})", sig, want); 1 }
+        None => { println!("not reproduced"); 0 }
+      }
+    }
     Some("W3") => {
       if flag(args, "--in-process") {
         return match w3::replay_in_process(&j) {
@@ -241,6 +275,7 @@ fn digests_cmd(args: &[String]) -> i32 {
   let wargs: Vec<String> = match property.as_str() {
     "C04" | "C05" => vec!["worker".into(), "--world".into(), "W1".into(), "--profile".into(), property.clone(), "--seed".into(), seed.to_string()],
     "C07" => vec!["worker".into(), "--world".into(), "W3".into(), "--seed".into(), seed.to_string()],
+    "C19" => vec!["worker".into(), "--world".into(), "W2".into(), "--seed".into(), seed.to_string()],
     p => { eprintln!("unknown property {}", p); return 2; }
   };
   let agg = match supervisor::run_batch(wargs, 0, runs, jobs, Duration::from_secs(3600), 8) { Ok(a) => a, Err(e) => { eprintln!("{}", e); return 2; } };
